@@ -1001,3 +1001,31 @@ impl Group {
     }
 }
 
+
+//------------ Verification hook ---------------------------------------------
+
+/// Renders the body of `/metrics` without a running server.
+#[cfg(routinator_verif)]
+pub async fn verif_metrics_body(
+    history: &SharedHistory,
+    http: &HttpServerMetrics,
+    rtr: &RtrServerMetrics,
+) -> bytes::Bytes {
+    use http_body_util::BodyExt;
+    handle_metrics(false, history, http, rtr).await
+        .into_hyper().unwrap().into_body()
+        .collect().await.unwrap().to_bytes()
+}
+
+/// Renders one labelled sample line the way all `/metrics` lines are.
+#[cfg(routinator_verif)]
+pub fn verif_sample_line(labels: &[(&str, &str)], value: &str) -> String {
+    let mut target = Target::default();
+    let metric = Metric::new("verif", "verif", MetricType::Gauge);
+    let mut line = target.multi(metric);
+    for (name, value) in labels {
+        line = line.label(name, value);
+    }
+    line.value(value);
+    target.buf
+}
